@@ -27,7 +27,8 @@ RULE = (
 )
 ASSUMPTIONS = [
     "right-handed = all eight scaled corner Jacobians (vf.refmodel.hex_corner_jacobians, OpenFOAM numbering) of the "
-    "straight-edged block exceed 1e-9; generated shapes measure >= 0.02",
+    "straight-edged block exceed 1e-9; the smallest value on the corners of the generated domain is 0.04 (Elbow swept "
+    "170 deg with bend radius 1.3 R), label minJ<0.03 counts anything below",
     "expected vertex counts come from the documented blockings: four-core disk 17 points, half disk 11, quarter 7, "
     "one-core 8, wrapped 12, oval 22, ring 2 per segment, hemisphere 35, joint with k branches 23 k + 5",
     "a point is on an intended circle when its distance from the centre and from the plane differ by <= 1e-6 R + 5e-8 "
@@ -105,7 +106,7 @@ def run_spec(case, ctx: Ctx, build) -> None:
             extra(dec, facts)
     ctx.nt(xs.is_general(case["place"]))
     ctx.label("general" if xs.is_general(case["place"]) else "aligned", "chops:" + case["chops"]["mode"])
-    ctx.label("minJ<0.1" if worst < 0.1 else "minJ>=0.1")
+    ctx.label("minJ<0.03" if worst < 0.03 else "minJ<0.1" if worst < 0.1 else "minJ>=0.1")
     for lb in spec.extra.get("labels", []):
         ctx.label(lb)
 
@@ -194,6 +195,7 @@ def build_op(case) -> Spec:
     place = case["place"]
     M = xs.frame(place)
     r = case["r"]
+    margin = 0.2 * min(case.get("w", 1.0), case.get("h", 1.0)) * r  # the jitter of quad(): keeps faces off the axis
     s = Spec(cls)
     s.n_blocks, s.n_vertices = 1, 8
     s.chop_claimed = False
@@ -221,14 +223,14 @@ def build_op(case) -> Spec:
     elif cls == "Revolve":
         # canonical: axis +z through the origin; the face lies in the half-plane y = 0, x > 0 and is ordered so that its
         # normal points along the motion (+y for a positive angle)
-        pts = [np.array([q[0], 0.0, q[1]]) for q in quad(case, case["rho"] * r, 0.0)]
+        pts = [np.array([q[0], 0.0, q[1]]) for q in quad(case, case["rho"] * r + margin, 0.0)]
         if case["angle"] > 0:
             pts = [pts[0], pts[3], pts[2], pts[1]]
         op = cb.Revolve(cb.Face([W(M, q) for q in pts]), case["angle"], D(M, Z), W(M, [0, 0, 0]))
         s.circles = [Circle(W(M, [0, 0, q[2]]), D(M, Z), q[0], 1, case["angle"]) for q in pts]
     elif cls == "Wedge":
         # canonical (fixed by the class): axis +x through the origin, face in the xy-plane with y > 0
-        pts = [np.array([q[0], q[1], 0.0]) for q in quad(case, 0.0, case["rho"] * r)]
+        pts = [np.array([q[0], q[1], 0.0]) for q in quad(case, 0.0, case["rho"] * r + margin)]
         op = cb.Wedge(cb.Face(pts), case["angle"])
         xs.place_entity(op, place)
         s.circles = [Circle(W(M, [q[0], 0, 0]), D(M, X), q[1], 1, case["angle"] or math.radians(2)) for q in pts]
@@ -386,8 +388,12 @@ def chain_cases(draw, start_kinds, witness: bool = False):
                         options += [("fill", i, "inner")] * 2
             if sh["kind"] in ("solid", "ring") and sh["straight"] and "outer" in sh["free"]:
                 options += [("expand", i, "outer")] * 2
+        # Elbow.chain(start_face=True) is a confirmed finding (known/C11.json): it has its own witness cell and is
+        # excluded here by construction so that it cannot hide anything else
         if witness:
             options = [o for o in options if o[0] == "elb" and o[2] == "start"]
+        else:
+            options = [o for o in options if not (o[0] == "elb" and o[2] == "start")]
         if not options:
             break
         op, src, where = draw(st.sampled_from(options))
